@@ -253,7 +253,9 @@ func genApp(reg *s.Reg, r *vh.Rand, thorough bool, out *[]string) {
 			for _, p := range srcs {
 				switch r.Intn(3) {
 				case 0:
-					if len(p) > 0 && strings.ToLower(p[0]) != "file" && strings.ToLower(p[0]) != "decoder" {
+					f := s.FieldAt(e.Conf, p)
+					_, req := hasTagH(f.Validate, "required")
+					if !req && strings.ToLower(p[0]) != "file" && strings.ToLower(p[0]) != "decoder" {
 						x = dropDeep(x, p)
 					}
 				case 1:
